@@ -88,12 +88,8 @@ Proof. exact wiring_all_true. Qed.
 Print Assumptions should_run_wiring.
 
 (* ---- binary64: the statement as executed ---- *)
-(* full strength: at most one authorised, in doubles, for the generated operation order *)
-Definition at_most_one_authorised_b64 : Prop := forall ids r1 r2 t im mm,
-  PrimFloat.ltb (mkf 0 0) im = true -> PrimFloat.leb (mkf 0 0) mm = true -> PrimFloat.leb (mkf 0 0) t = true ->
-  In r1 ids -> In r2 ids -> r1 <> r2 ->
-  gen_can_run_atomic_service F64 r1 ids t im mm = true ->
-  gen_can_run_atomic_service F64 r2 ids t im mm = true -> False.
+(* full strength (Model/AtomicSpec.v): at_most_one_authorised_b64 — at most one authorised, in doubles,
+   for the generated operation order *)
 
 (* the translator's classification of the slot-end expression is re-checked by conversion *)
 Theorem end_form_classified : end_form_claim gen_end_form.
@@ -112,18 +108,14 @@ Print Assumptions at_most_one_authorised_b64_refuted.
    as long as the half-slot fallback is not taken *)
 Theorem adjacent_windows_do_not_cross_b64_partial :
   gen_end_form = NextStartForm -> forall i n im mm,
-  PrimFloat.leb (mkf 0 0) mm = true ->
-  let w := gen_calculate_time_slot F64 i n im mm in
-  let w' := gen_calculate_time_slot F64 (i + 1) n im mm in
+  PrimFloat.leb PrimFloat.zero (b64_margin_secs mm) = true ->
   b64_fallback_taken i n im mm = false ->
-  PrimFloat.ltb (fst w') (snd w) = false.
+  PrimFloat.ltb (fst (gen_calculate_time_slot F64 (i + 1) n im mm))
+                (snd (gen_calculate_time_slot F64 i n im mm)) = false.
 Proof. exact b64_next_start_form_no_cross. Qed.
 Print Assumptions adjacent_windows_do_not_cross_b64_partial.
 
 (* non-vacuity: 3 runners, 6 min cycle, 1 min margin (the configuration the pinned tests use):
    windows [0,60) [120,180) [240,300), gaps of 60 s, exactly one runner authorised at t = 130 s *)
-Example c12_nonvacuous :
-  map (fun i => gen_calculate_time_slot QA i 3 6 1) [0; 1; 2]%Z = [(0 * (6 * 60 / 3), 0 * (6 * 60 / 3) + 6 * 60 / 3 - 1 * 60);
-        (1 * (6 * 60 / 3), 1 * (6 * 60 / 3) + 6 * 60 / 3 - 1 * 60); (2 * (6 * 60 / 3), 2 * (6 * 60 / 3) + 6 * 60 / 3 - 1 * 60)]
-  \/ authorised QA [10; 20; 30]%Z 130 6 1 = [20%Z].
-Proof. right. vm_compute. reflexivity. Qed.
+Example c12_nonvacuous : authorised QA [10; 20; 30]%Z 130 6 1 = [20%Z].
+Proof. vm_compute. reflexivity. Qed.
